@@ -244,9 +244,9 @@ fn decode_headers(payload: &[u8]) -> Result<Vec<HttpHeader>, hpack_patched::deco
     match decoder.decode(payload) {
         Ok(header_list) => {
             for (position, (name, value)) in header_list.into_iter().enumerate() {
-                if let (Ok(name_str), Ok(value_str)) =
-                    (String::from_utf8(name), String::from_utf8(value))
-                {
+                // Header values are opaque octets: only the name has to be text
+                if let Ok(name_str) = String::from_utf8(name) {
+                    let value_str = String::from_utf8_lossy(&value).into_owned();
                     let source = if name_str.starts_with(':') {
                         crate::http_common::HeaderSource::Http2PseudoHeader
                     } else {
